@@ -14,7 +14,11 @@ MIDDLE = [["map", "add0"], ["filter", "true"], ["skip", "0"], ["scan", "add", "0
           # (yet): their is_finished must still forward what is below them
           ["take", "50"], ["takewhile", "true"], ["takewhilei", "true"], ["contains", "-77"],
           ["all", "true"], ["elementat", "40"], ["dflt", "9"]]
+# operators that emit (at least) one item for every one or two items they receive, whatever the values
+SAFE_BELOW_COUNT = [["map", "add0"], ["filter", "true"], ["skip", "0"], ["scan", "add", "0"], ["tap"], ["distinct"],
+                    ["pairwise"], ["bufcount", "1"], ["skipwhile", "false"], ["duc"], ["dflt", "9"]]
 TWO = ["merge", "zip", "combine", "withlatest", "takeuntil", "skipuntil", "sample", "buffer"]
+STREAMS = ("stream", "streamres")
 
 
 def tail_script(period, total):
@@ -28,15 +32,20 @@ class C16(Prop):
     pid = "C16"
     lean_module = "RxModel.Props.C16"
     design_ref = "DESIGN.md §6 C16"
-    rule = ("producers {interval on the virtual clock, from_iter over a counting iterator} x chains (<=3) of "
+    rule = ("producers {interval on the virtual clock, from_iter over a counting iterator, from_stream / "
+            "from_stream_result over a long always-ready (or unbounded, or pending-interleaved) scripted stream} x chains (<=3) of "
             "intermediate operators x early-terminating operators {take, first, element_at, take_while, contains, "
             "all, take_until}, with the producer as main input and as second input (notifier / sampler / other) of "
             "every two-input operator; prompt unit-step schedules long enough for several periods after the "
             "termination. Full line compared (deliveries, live tasks, timers, clock, pulls). Oracle on the "
             "implementation: once the subscriber has seen its terminal, no task is live any more one period (plus "
             "one step) later — so run-until-idle terminates; a counting iterator is not pulled beyond what was "
-            "delivered.")
-    assumptions = ["from_stream producers are not in this suite yet; take(0) never closes (spec decision, DESIGN §7)"]
+            "delivered; a stream driver has left the executor when the executor has run until idle after the terminal "
+            "(and at once when it was polled), it does not pull more items than the model that asks is_finished() "
+            "before every poll_next, and it does not block the executor (HANG) on an unbounded stream.")
+    assumptions = ["stream producers as main input only (the chain model has no async source in notifier position); "
+                   "take(0) never closes (spec decision, DESIGN §7); the model of the stream drivers follows the "
+                   "REPAIRED code (is_finished asked at the top of the driver loop, DESIGN §7 finding 18)"]
     modelled_not_verified = "all Rust code"
 
     def cases(self, tier, seed):
@@ -87,10 +96,96 @@ class C16(Prop):
                 pipe = rng.choice(CUTTERS) + [pipe]
             out.append(Case("time", rng.choice(["local", "threads"]), [("pipe", [pipe])],
                             [["sub"], ["q", "pulls"]], {"kind": "iterator", "n": n}))
+        out += self.stream_cases(rng, tier)
         return out
+
+    def stream_cases(self, rng, tier):
+        """from_stream / from_stream_result below an early-terminating operator."""
+        out = []
+
+        def tail(j=0):
+            return [["sub"]] + [["poll", "0"]] * j + [["run"], ["q", "pulls"], ["q", "closed"], ["adv", "1"], ["run"]]
+
+        # minimal ones first: always-ready bounded, pending in between, unbounded
+        for head in ("stream", "streamres"):
+            for fl in ("local", "threads"):
+                ready = [["ready", str(i)] for i in range(4)]
+                out.append(Case("time", fl, [("pipe", [["take", "2", [head] + ready]])], tail(),
+                                {"kind": "stream", "shape": "ready"}))
+                out.append(Case("time", fl, [("pipe", [["take", "1", [head] + ready[:1] + [["pending"]] + ready[1:]]])],
+                                tail(), {"kind": "stream", "shape": "pending"}))
+                # a stream that stays silent after its first item: the driver must not wait for it
+                out.append(Case("time", fl, [("pipe", [["take", "1", [head, ["ready", "0"], ["hang"]]]])], tail(),
+                                {"kind": "stream", "shape": "silent"}))
+            out.append(Case("time", "local", [("pipe", [["take", "1", [head, ["ready", "0"], ["again"]]]])],
+                            [["sub"], ["run"], ["q", "pulls"]], {"kind": "stream", "shape": "unbounded"}))
+        reps = 300 if tier == "quick" else 3000
+        for _ in range(reps):
+            head = rng.choice(["stream", "streamres"])
+            n = rng.choice([6, 12, 30])
+            steps = []
+            pend = rng.choice([0.0, 0.0, 0.2, 0.5])
+            for i in range(n):
+                while rng.random() < pend:
+                    steps.append(["pending"])
+                steps.append(["ready", str(i)])
+            shape = "pending" if pend else "ready"
+            r = rng.random()
+            if r < 0.06:
+                steps.append(["again"])
+                shape = "unbounded"
+            elif r < 0.25:
+                steps.append(["hang"])
+                shape = "silent"
+            pipe = [head] + steps
+            if shape == "unbounded":
+                # only a count-based terminator ends an unbounded stream for sure (see _has_cutter)
+                for _ in range(rng.randint(0, 2)):
+                    pipe = rng.choice(SAFE_BELOW_COUNT) + [pipe]
+                pipe = rng.choice([["take", "1"], ["take", "2"], ["first"], ["elementat", "1"]]) + [pipe]
+            for _ in range(rng.randint(0, 3)):
+                pipe = rng.choice(MIDDLE) + [pipe]
+            pipe = rng.choice(CUTTERS) + [pipe]
+            for _ in range(rng.randint(0, 1)):
+                pipe = rng.choice(MIDDLE) + [pipe]
+            out.append(Case("time", rng.choice(["local", "threads"]), [("pipe", [pipe])],
+                            tail(rng.choice([0, 0, 1, 2])), {"kind": "stream", "shape": shape}))
+        return out
+
+    def stream_oracle(self, case, lines, model_lines):
+        term_at = None
+        pulls = mp = None
+        for k, e in enumerate(case.events):
+            b = lines.get(k)
+            if b == "PANIC":
+                return {"kind": "panic", "event": k, "detail": b}
+            if b is None:
+                continue
+            if b.startswith("pulls="):
+                pulls = int(b[6:])
+                mb = (model_lines or {}).get(k, "")
+                if mb.startswith("pulls="):
+                    mp = int(mb[6:])
+                continue
+            if not b.startswith("o="):
+                continue
+            outs, kv = tg.parse_suffix(b)
+            if term_at is None and any(o == "C" or o.startswith("E") for o in outs):
+                term_at = k
+            if term_at is not None and e[0] == "run" and kv.get("live", 0) != 0:
+                return {"kind": "producer-not-retired", "event": k,
+                        "detail": f"subscriber terminated in event {term_at}; the executor ran until idle and "
+                                  f"{kv.get('live')} task(s) are still live"}
+        # by C16_stream_retires the model's driver stops pulling when its observer is finished
+        if term_at is not None and pulls is not None and mp is not None and pulls > mp:
+            return {"kind": "stream-drained", "event": term_at,
+                    "detail": f"{pulls} items pulled from the stream, the observer was finished after {mp}"}
+        return None
 
     def oracle(self, case, lines, model_lines=None):
         kind = case.meta.get("kind", "")
+        if kind == "stream" or self._src(case) in STREAMS:
+            return self.stream_oracle(case, lines, model_lines)
         if kind == "iterator" or case.field("pipe") and self._src(case) == "iterc":
             delivered_items = None
             for k, e in enumerate(case.events):
@@ -139,7 +234,8 @@ class C16(Prop):
 
     def _srcnode(self, case):
         node = case.field("pipe")[0]
-        while isinstance(node, list) and node and isinstance(node[-1], list) and node[0] not in TWO:
+        while (isinstance(node, list) and node and isinstance(node[-1], list) and node[0] not in TWO
+               and node[0] not in STREAMS):
             node = node[-1]
         if node and node[0] in TWO:
             node = node[1]
@@ -151,31 +247,48 @@ class C16(Prop):
         return self._srcnode(case)[0]
 
     def _has_cutter(self, case):
+        """An unbounded stream legitimately never ends unless an operator that ends after a fixed NUMBER of
+        items (whatever their values) sits above it with only one-in-one-out(ish) operators in between:
+        `contains -77`, `all true`, `take_while true` ... swallow or pass an unbounded stream for ever, and
+        the real code then rightly never leaves the executor (watchdog HANG = a false alarm)."""
         node = case.field("pipe")[0]
         heads = []
         while isinstance(node, list) and node:
-            heads.append(node[0])
-            node = node[-1] if isinstance(node[-1], list) else None
-        return any(h in ("take", "first", "elementat", "takewhile", "contains", "all") for h in heads)
+            heads.append(node)
+            node = node[-1] if isinstance(node[-1], list) and node[0] not in STREAMS else None
+        heads = heads[:-1][::-1]           # operators from the stream upwards
+        for h in heads:
+            if h[0] in ("first",) or (h[0] == "take" and int(h[1]) >= 1) or h[0] == "elementat":
+                return True
+            if h[:-1] not in SAFE_BELOW_COUNT:
+                return False
+        return False
 
     def signature(self, case, failure):
         node, hs = case.field("pipe")[0], []
         while isinstance(node, list) and node:
             hs.append(node[0])
+            if node[0] in STREAMS:
+                break
             if node[0] in TWO:
                 hs.append("second:" + node[2][0])
                 node = node[1]
             else:
                 node = node[-1] if isinstance(node[-1], list) else None
-        keep = sorted(set(h for h in hs if h in TWO or h.startswith("second:") or h in ("interval", "iterc")))
+        keep = sorted(set(h for h in hs if h in TWO or h.startswith("second:") or
+                          h in ("interval", "iterc") + STREAMS))
         return f"{failure['kind']}|time|{','.join(keep)}"
 
     def shrink_candidates(self, case):
         cands = []
-        for c in tg.time_shrink(case):
+        for c in tg.time_shrink(case) + tg.script_shrink(case):
             try:
-                if self._src(c) == self._src(case):
-                    cands.append(c)
+                if self._src(c) != self._src(case):
+                    continue
+                # an unbounded stream without an early-terminating operator above it legitimately never ends
+                if ["again"] in self._srcnode(c) and not self._has_cutter(c):
+                    continue
+                cands.append(c)
             except Exception:
                 pass
         return cands
